@@ -240,18 +240,21 @@ def gen_variants(rng, case, thorough):
                     s.add(p)
                     ch = True
         return sorted(s)
+    def any_sel():
+        """any selection: a forked child selected without its parent continues at its inherited stack depth"""
+        return sorted(rng.sample(range(n), rng.randrange(1, n + 1))) if rng.random() < 0.6 else closed_sel()
     D = {"fold": True, "sel": None, "fields": ["duration", "tid"], "column": None, "newline": False}
     vs = [dict(D)]
     vs.append(dict(D, fold=False))
     vs.append(dict(D, fields=allf))
-    vs.append(dict(D, sel=closed_sel()))
+    vs.append(dict(D, sel=any_sel()))
     vs.append(dict(D, column=rng.choice([8, 8, 1, 3])))
     extra = [
         dict(D, fields=[]),
         dict(D, newline=True),
-        dict(D, fold=False, fields=allf, sel=closed_sel()),
+        dict(D, fold=False, fields=allf, sel=any_sel()),
         dict(D, fields=rng.sample(allf, rng.randrange(1, 5))),
-        dict(D, fold=rng.random() < 0.5, column=rng.choice([8, 2]), newline=True, fields=["tid", "time", "duration"], sel=closed_sel()),
+        dict(D, fold=rng.random() < 0.5, column=rng.choice([8, 2]), newline=True, fields=["tid", "time", "duration"], sel=any_sel()),
         dict(D, fields=["time", "elapsed", "delta"], fold=False),
     ]
     if thorough:
@@ -541,7 +544,7 @@ def common_meta(ctx):
         "records are ENTRY/EXIT of user functions only (no LOST/EVENT, no kernel/perf/extern data, no arguments)",
         "nesting depth < hdr.max_stack <= 1024 (default -D), no -t/-F/-N/-T/-r options, one session, symbols resolve",
         "no symbol named exec*/setjmp/longjmp (their fix-ups are not modelled); fork/vfork/daemon are modelled",
-        "--tid selections keep the parent of every selected forked child (the other case is the known finding tid-child-without-parent, replayed by a dedicated witness)",
+        "--tid: presentation fields (-f without tid/duration) are compared with the full view only under parent-closed selections; a forked child selected without its parent continues at its inherited stack depth (modelled; the repaired defect tid-child-without-parent has a dedicated witness)",
         "timestamps >= 1000 ns and < 2^63; well-formed = per-task non-decreasing times, balanced against inherited frames",
     ]
 
@@ -646,11 +649,12 @@ def known_witness(ctx, objdir):
     still = full != alone
     ctx.case(key=("known-finding", KF_KEY), tags=["known-finding:" + KF_KEY],
              sample={"tasks": case["tasks"], "full_view_child_lines": full, "tid_child_only_lines": alone})
-    if still:
-        # the model describes the code as it is: it must reproduce both outputs
+    if not still:
+        # the model describes the code as it is (the defect is repaired: a child selected alone continues
+        # at its inherited stack depth): it must reproduce both outputs
         res = evaluate(ctx, [(case, [(v, (o[0], o[1])) for v, o in obs])], "known_finding")
         if res is not None and res["mismatch"]:
-            ctx.violation("model and implementation disagree on the witness of the known finding %s" % KF_KEY,
+            ctx.violation("model and implementation disagree on the witness of the repaired defect %s" % KF_KEY,
                           {"case": case, "variant": v_child, "observed": obs[1][1]}, False)
     ctx.known_finding(KF_KEY, KF_TEXT, still,
                       {"known_finding": KF_KEY, "case": case, "variant": v_child,
